@@ -18,7 +18,7 @@ SEED = int(os.environ.get("VERIF_SEED", "1") or "1")
 NCPU = int(os.environ.get("VERIF_JOBS", str(os.cpu_count() or 4)))
 TLA_CP = "/opt/veriftools/tla/tla2tools.jar:/opt/veriftools/tla/CommunityModules-deps.jar"
 
-_FALLBACK_DEFS = {"w2c2/main.c": ["-DHAS_PTHREAD=1", "-DHAS_UNISTD=1", "-DHAS_GETOPT=1", "-DHAS_LIBGEN=1", "-DHAS_STRDUP=1", "-DHAS_GLOB=1"],
+_FALLBACK_DEFS = {"w2c2/main.c": ["-std=gnu90", "-DHAS_PTHREAD=1", "-DHAS_UNISTD=1", "-DHAS_GETOPT=1", "-DHAS_LIBGEN=1", "-DHAS_STRDUP=1", "-DHAS_GLOB=1"],
                   "wasi/wasi.c": ["-DHAS_FCNTL=1", "-DHAS_GETENTROPY=1", "-DHAS_LSTAT=1", "-DHAS_STRNDUP=1", "-DHAS_SYSRESOURCE=1", "-DHAS_SYSTIME=1",
                                   "-DHAS_SYSUIO=1", "-DHAS_TIMESPEC=1", "-DHAS_UNISTD=1", "-DWASM_THREADS_PTHREADS"]}
 _project_defs = None
@@ -37,7 +37,8 @@ def project_defs(source):
             if p.returncode == 0:
                 for e in json.load(open(os.path.join(d, "compile_commands.json"))):
                     rel = os.path.relpath(e["file"], REPO)
-                    _project_defs.setdefault(rel, [x for x in e["command"].split() if x.startswith("-D")])
+                    # definitions and the language standard (what the sources see); optimisation and warnings are the checks' own
+                    _project_defs.setdefault(rel, [x for x in e["command"].split() if x.startswith(("-D", "-std="))])
         except (OSError, ValueError, subprocess.TimeoutExpired):
             pass
         finally:
